@@ -3,6 +3,7 @@ package main
 // Calls: builtins, trusted standard-library contracts, inlining, contract calls, defers.
 
 import (
+	"strconv"
 	"regexp"
 	"fmt"
 	"go/ast"
@@ -933,6 +934,17 @@ func (f *frame) stmtSite(in ssa.Instruction) {
 		want := map[string]bool{}
 		// a site names a statement by its text as it was when the contract was written; locals renamed
 		// since then (see `locals`) are renamed in that text as well
+		// both texts are compared with integer literals in decimal and without redundant blanks
+		norm := func(x string) string {
+			x = regexp.MustCompile(`\b0[xX][0-9a-fA-F_]+\b`).ReplaceAllStringFunc(x, func(h string) string {
+				v, err := strconv.ParseUint(strings.ReplaceAll(h[2:], "_", ""), 16, 64)
+				if err != nil {
+					return h
+				}
+				return strconv.FormatUint(v, 10)
+			})
+			return strings.Join(strings.Fields(x), " ")
+		}
 		alias := map[string]string{} // text as it is in the code now -> site as written in the contract
 		wantEnd := map[string]bool{}
 		add := func(site string) {
@@ -945,6 +957,7 @@ func (f *frame) stmtSite(in ssa.Instruction) {
 				for from, to := range t.renames {
 					cur = regexp.MustCompile(`\b`+regexp.QuoteMeta(from)+`\b`).ReplaceAllString(cur, to)
 				}
+				cur = norm(cur)
 				want[cur] = true
 				alias[cur] = site
 			}
@@ -995,6 +1008,7 @@ func (f *frame) stmtSite(in ssa.Instruction) {
 			if i := strings.Index(line, "//"); i >= 0 {
 				line = strings.TrimSpace(line[:i])
 			}
+			line = norm(line)
 			cnt[line]++
 			site := fmt.Sprintf("stmt %s#%d", line, cnt[line])
 			if want[site] {
